@@ -3,7 +3,7 @@ import json
 import session
 
 C06_PREDS = ["C06_UniqueIds", "C06_NoDupPairs", "C06_PairsFromCurrent", "C06_SelListed", "C06_IdStable",
-             "C06_RemotesDeduped", "C06_NoResidue", "C06_SupersessionPreserves"]
+             "C06_RemotesDeduped", "C06_NoResidue", "C06_NoResidueNew", "C06_SupersessionPreserves"]
 C02_PREDS = ["C02_BadRequestInert", "C02_BadResponseInert", "C02_ErrorInert", "C02_IndicationOnlyLiveness",
              "C02_UnmatchedResponse", "C02_MatchedOnly"]
 C03_PREDS = ["C03_SelValidated", "C03_LiteSelectsOnNomination", "C03_NoUCFromControlled", "C03_LiteNeverRequests", "C03_NoDowngrade"]
@@ -22,7 +22,7 @@ def n(tier, quick, thorough):
 
 def c01(tier, seed):
     w = n(tier, 150, 2000)
-    runs = [dict(cfg=c, traces=w, drain=True, notime=True, preds=C01_PREDS) for c in ("p11", "pnat", "p21n", "prst", "p22")]
+    runs = [dict(cfg=c, traces=w, drain=True, notime=True, preds=C01_PREDS) for c in ("p11", "pnat", "pnatc", "p21n", "prst", "p22")]
     runs[0]["scheds"] = ["c01_triggered_check_after_budget"]
     runs.append(dict(cfg="poneway", traces=n(tier, 60, 500), drain=True, notime=True, preds=C01_PREDS))
     runs.append(dict(cfg="prole", traces=n(tier, 60, 500), drain=True, notime=True, preds=C01_PREDS))
@@ -36,7 +36,10 @@ def c01(tier, seed):
 def c02(tier, seed):
     w = n(tier, 250, 4000)
     runs = [dict(cfg="pinj", traces=w, preds=C02_PREDS), dict(cfg="pall", traces=w, preds=C02_PREDS),
-            dict(cfg="pinjnat", traces=n(tier, 100, 1500), preds=C02_PREDS)]
+            dict(cfg="pinjnat", traces=n(tier, 100, 1500), preds=C02_PREDS),
+            dict(cfg="p12", traces=n(tier, 50, 500), preds=C02_PREDS, scheds=["nm_respdst"]),
+            dict(cfg="p11", traces=n(tier, 100, 1000), preds=C02_PREDS, scheds=["c02_expired_response"]),
+            dict(cfg="prst", traces=n(tier, 100, 1000), preds=C02_PREDS + ["C06_NoResidue"], scheds=["c02_answer_from_ended_generation"])]
     plan = {"runs": runs, "mc": [("pinj", ["SelValidated", "NoDupPairs"], None)], "assumptions": SESSION_ASSUME}
     return session.run_property("C02", tier, seed, plan)
 
@@ -44,6 +47,10 @@ def c02(tier, seed):
 def c03(tier, seed):
     w = n(tier, 150, 2500)
     runs = [dict(cfg=c, traces=w, drain=True, preds=C03_PREDS) for c in ("p11", "p21n", "pnat", "plite", "plitecp", "p22")]
+    runs[0]["scheds"] = ["nm_selvalid", "nm_ctlsel_uc"]
+    runs[1]["scheds"] = ["nm_prioless"]
+    runs.append(dict(cfg="pnatc", traces=w, drain=True, preds=C03_PREDS))
+    runs.append(dict(cfg="p21inj", traces=w, drain=True, zerowait=True, preds=C03_PREDS, scheds=["c03_plain_uc_after_valued"]))
     plan = {"runs": runs, "mc": [("p11", ["SelValidated"], {"MaxTicks": 2, "MaxLoss": 1, "MaxDup": 0}), ("plite", ["SelListed"], None)],
             "assumptions": SESSION_ASSUME}
     return session.run_property("C03", tier, seed, plan)
@@ -69,7 +76,8 @@ def c05(tier, seed):
 
 def c06(tier, seed):
     w = n(tier, 200, 3000)
-    runs = [dict(cfg=c, traces=w, preds=C06_PREDS) for c in ("pnat", "prst", "p11", "p21n", "pall", "p22")]
+    runs = [dict(cfg=c, traces=w, preds=C06_PREDS) for c in ("pnat", "pnatc", "prst", "p11", "p21n", "pall", "p22", "pnewrst")]
+    runs[0]["scheds"] = ["nm_findpair"]
     plan = {"runs": runs, "mc": [("pnat", ["UniqueIds", "NoDupPairs", "PairsFromCurrent", "SelListed"], None),
                                  ("prst", ["UniqueIds", "NoDupPairs", "PairsFromCurrent", "SelListed"], None)],
             "assumptions": SESSION_ASSUME}
@@ -119,6 +127,10 @@ def replay(path):
     """Re-run one recorded schedule against the current tree and re-judge it."""
     import vlib as v
     rp = json.load(open(path))
+    if rp.get("family"):   # replay files of other families name their plan module
+        mod = _importlib.import_module("plan_" + rp["family"])
+        if hasattr(mod, "replay"):
+            return mod.replay(rp)
     prop = rp["property"]
     verdict = v.Verdict(prop, "quick", 0)
     stats = session.new_stats()
